@@ -18,10 +18,14 @@ EXPLANATION = (
     "ECDH, SRP and DSA verification are present, effective, placed before (or, for the all-zero "
     "check, after) the exponentiation they protect, and mean what the standards say - each guard is "
     "evaluated over the finite set of boundary values (0, 1, 2, p-2, p-1, p, ...) and compared with "
-    "the specified predicate.")
+    "the specified predicate. PSS-STRICT: RSAKey.EMSA_PSS_verify, interpreted over sample encoded "
+    "messages built by the checker's own RFC 8017 encoder (hashes and MGF1 replaced by reference "
+    "stand-ins; nothing of the library runs), accepts the correct encoding and refuses the encoding "
+    "with any single octet altered, an unused leading bit set or another message hash.")
 NOT_DECIDED = ("soundness of the signature mathematics, that verify rejects every non-canonical "
                "encoding, agreement of both parties' secrets, on-curve validation inside python-ecdsa")
-TECHNIQUE = "def-use + CFG must-pass-through for sign-then-verify; finite-domain evaluation of range guards"
+TECHNIQUE = ("def-use + CFG must-pass-through for sign-then-verify; finite-domain evaluation of range guards; "
+             "abstract interpretation of EMSA_PSS_verify's source over sample encodings (no library code runs)")
 
 SIGN_ATTRS = {"sign": "verify", "hashAndSign": "hashAndVerify"}
 MODULES = ("keyexchange", "tlsconnection", "tlsrecordlayer")
